@@ -8,32 +8,44 @@ HTLC_CLAUSES_C04 = ["C04_Escrow", "C04_InOut", "C04_Current", "C04_Limit", "C04_
 C13_CLAUSES_HTLC = ["C13_QueueSound", "C13_QueueComplete", "C13_OnceOnTime", "C13_NoHalt"]
 # antecedents the HTLC part of C13 must exercise (expiry processing of every kind, several per height,
 # claims in the last block before / in the block of the expiry, fast-forwarded empty blocks)
-C13_REQUIRED = ["refund_plain", "refund_in", "refund_out", "refund_many", "claim_last_block",
+C13_REQUIRED = ["refund_plain", "refund_in", "refund_out", "refund_many", "refund_dozens", "claim_last_block",
                 "claim_in_expiry_block", "skip"]
+# diagnostic clauses (specification beyond the listed properties; reported, never a verdict)
+DIAGNOSTIC_HTLC = ["X03_CreateRecord", "X04_Admission", "X04_InFlight", "X04_ParamsStored",
+                   "X12_HTLC_Queue", "X12_HTLC_ZeroQueue"]
 
 # model <-> chain: height compression 50 (model lock k = real lock 50k, model block = 50 real blocks)
 HTLC_GEN_CFG = "compress=50,period=100,users=2,initbal=5"
 
 HTLC_RND = T(
     [dict(n=6, len=40, procs=6, cfg="users=2"),
-     dict(n=6, len=40, procs=6, cfg="users=3,limit1=6,limit2=6,tbl2=4,period=60,initbal=6")],
+     dict(n=6, len=40, procs=6, cfg="users=3,limit1=6,limit2=6,tbl2=4,period=60,initbal=6"),
+     # dozens of contracts per expiry height (C13)
+     dict(n=1, len=30, procs=2, cfg="users=3,initbal=40,flood=24,limit1=12")],
     [dict(n=60, len=50, procs=7, cfg="users=2"),
-     dict(n=60, len=50, procs=7, cfg="users=3,limit1=6,limit2=6,tbl2=4,period=60,initbal=6")])
+     dict(n=60, len=50, procs=7, cfg="users=3,limit1=6,limit2=6,tbl2=4,period=60,initbal=6"),
+     dict(n=6, len=40, procs=6, cfg="users=3,initbal=60,flood=40,limit1=12")])
 HTLC_GEN = T([dict(cfg="GEN_HTLC.cfg", num=8, depth=26, seeds=8)],
              [dict(cfg="GEN_HTLC.cfg", num=40, depth=30, seeds=14)])
 HTLC_SCN = [dict(file="scenarios/htlc_boundary.ndjson", cfg="users=2"),
             dict(file="scenarios/htlc_limits.ndjson", cfg="users=2"),
             dict(file="scenarios/htlc_asset_removed.ndjson", cfg="users=2"),
-            # known finding F28 / F28b (findings/htlc.md H1): recipient = the htlc module account
-            dict(file="scenarios/htlc_to_module.ndjson", cfg="users=2")]
+            # regression of H1 (F28/F28b, fixed by /repo 20cb755): recipient = the htlc module account is refused
+            dict(file="scenarios/htlc_to_module.ndjson", cfg="users=2"),
+            # asset life cycle: switched off / swap range, lock range, fee, deputy changed with transfers in flight;
+            # equal block times, a step far beyond the period
+            dict(file="scenarios/htlc_lifecycle.ndjson", cfg="users=2,limit1=8"),
+            # 32 contracts refunded by one begin blocker
+            dict(file="scenarios/htlc_dozens.ndjson", cfg="users=3,initbal=20,limit1=8")]
 HTLC_MC = T([dict(cfg="MC_HTLC.cfg", timeout=900, heap="4g"), dict(cfg="MC_HTLC_assets.cfg", timeout=900, heap="4g"),
-             dict(cfg="MC_HTLC_window.cfg", timeout=900, heap="4g"),
-             # the model with a contract payable to the module account; clauses modulo known finding H1 (F28)
-             dict(cfg="MC_HTLC_ModH1.cfg", timeout=900, heap="4g")],
+             dict(cfg="MC_HTLC_window.cfg", timeout=900, heap="4g")],
             [dict(cfg="MC_HTLC_big.cfg", timeout=3000, heap="6g"), dict(cfg="MC_HTLC_assets_big.cfg", timeout=3000, heap="6g"),
              dict(cfg="MC_HTLC_window_big.cfg", timeout=3000, heap="6g"),
              dict(cfg="MC_HTLC_both_big.cfg", timeout=3400, heap="6g"),
-             dict(cfg="MC_HTLC_ModH1.cfg", timeout=900, heap="4g")])
+             # asset life cycle (switch off, tighten ranges, fee, deputy change with transfers in flight)
+             dict(cfg="MC_HTLC_life_big.cfg", timeout=900, heap="4g"),
+             # a contract payable to the module account: refused at create since /repo 20cb755 (H1 fixed)
+             dict(cfg="MC_HTLC_H1fixed.cfg", timeout=900, heap="4g")])
 
 # histories recorded (VERIF_RECORD_DIR) for the cross-module checks C11 / C12
 RECORD = [dict(binary="htlc", n=T(3, 12), len=40, cfg="users=3,limit1=6,limit2=6,tbl2=4,period=60,initbal=6")]
@@ -44,8 +56,8 @@ HTLC_ASSUME = ["TLC 1.8, SANY, CommunityModules Json", "Go toolchain, cosmos-sdk
                "binding secret/timestamp/contract only",
                "height compression for TLC-generated behaviours (model lock k = real lock 50k, DESIGN 4.2); "
                "random and scripted histories run at real block granularity",
-               "no account donates to the htlc module account; contracts naming it as recipient strand their "
-               "coins there (known finding F28, masked exactly by the ghost gh.stranded)"]
+               "no account donates to the htlc module account (the application wiring blocks it as a recipient "
+               "since /repo 20cb755, which also fixed finding H1 / F28)"]
 
 PROPS = {
     "C03": ModuleCheck("htlc", "HTLC.tla", "HTLCTrace.tla", "HTLCTrace.cfg", HTLC_CLAUSES_C03,
@@ -54,14 +66,17 @@ PROPS = {
                                  "claim_plain_ok", "claim_in_ok", "claim_out_ok", "claim_by_third_party",
                                  "claim_wrong_secret", "claim_other_ts", "claim_other_contract", "claim_second",
                                  "claim_after_refund", "claim_in_expiry_block", "claim_last_block",
-                                 "refund_plain", "refund_in", "refund_out", "refund_many", "claim_to_module"],
+                                 "refund_plain", "refund_in", "refund_out", "refund_many", "create_to_module_rej"],
                        gen_cfg=HTLC_GEN_CFG, assumptions=HTLC_ASSUME),
     "C04": ModuleCheck("htlc", "HTLC.tla", "HTLCTrace.tla", "HTLCTrace.cfg", HTLC_CLAUSES_C04,
                        HTLC_MC, HTLC_GEN, HTLC_RND, scenarios=HTLC_SCN,
                        required=["create_plain_ok", "create_in_ok", "create_out_ok", "claim_in_ok", "claim_out_ok",
                                  "refund_plain", "refund_in", "refund_out", "window_reset", "window_accum",
                                  "limit_rej", "time_limit_rej", "params_update", "limit_after_update",
-                                 "asset_removed_inflight", "claim_in_rej", "claim_to_module"],
+                                 "asset_removed_inflight", "claim_in_rej", "create_to_module_rej",
+                                 "inactive_rej", "amount_range_rej", "asset_lock_range_rej", "below_fee_rej",
+                                 "changed_inflight", "deputy_changed_inflight", "claim_inactive_ok",
+                                 "refund_unsupported", "claim_new_deputy", "dt_zero", "dt_beyond_period"],
                        gen_cfg=HTLC_GEN_CFG, assumptions=HTLC_ASSUME),
 }
 
@@ -82,9 +97,9 @@ TEXT = {
         note="Trusted: TLC/SANY/CommunityModules Json, Go toolchain, cosmos-sdk bank/auth, the harness projection and "
              "its sha256 binding of secret names to hash locks and ids.  Time locks on chain are >= 50 blocks: empty "
              "blocks are executed for real and logged as one Skip event (specified as the n-fold begin block).  "
-             "Known finding F28/F28b (findings/htlc.md H1): a claimed contract whose recipient is the htlc module "
-             "account leaves its coins in escrow; masked only on lines where C04_Escrow / C03_ExactlyOnce hold "
-             "once the ghost gh.stranded is subtracted (why = to_escrow), any other discrepancy stays a violation."),
+             "Finding H1 (F28/F28b, a contract payable to the htlc module account stranded its coins) is fixed by "
+             "/repo 20cb755 (module accounts blocked): its scenario stays as a regression, the ghost gh.stranded "
+             "and the exact why = to_escrow attribution stay in place."),
     "C04": dict(
         design="DESIGN.md 8 (C04), 3, 4.2",
         text="Same specification and traces as C03; state clauses after every event (hence at every block boundary): "
